@@ -147,18 +147,9 @@ def cmdHIncrBy : Cmd := fun env db args =>
     | some delta => hashWrite env db k fun h => hincrby h f delta
   | _ => (errArgs, db)
 
-/-- IEEE-754 double: biased exponent field -/
-def flExp (bits : UInt64) : Nat := ((bits >>> 52) &&& 0x7ff).toNat
-
-/-- a reply the implementation cannot have produced when it agrees with the model (checker mode: the observed reply was refused) -/
-def rejectObs (obs : Option Reply) (why : String) : Reply :=
-  match obs with
-  | some (.err _) => .simple (ofStr ("MODEL-REJECTS " ++ why))
-  | _ => .err (ofStr ("ERR MODEL-REJECTS " ++ why))
-
 /-- HINCRBYFLOAT in checker mode.  The model decides: the increment must be a finite float (`strconv.ParseFloat` bits shipped by the
     harness), the stored value must read as a decimal number; then the implementation's sum is adopted if it is a finite decimal.
-    An overflow error is admitted only when the increment is at least 2^1022 in magnitude (the sum can then leave the double range). -/
+    An overflow error is admitted only when the increment is at least 2^1022 in magnitude or the stored value is `hugeDecimal`. -/
 def hincrbyfloat (obs : Option Reply) (bits : UInt64) (h : HashT) (f : Bytes) : Reply × HashT :=
   let curOk := match hget h f with | none => true | some b => looksDecimal b
   if !curOk then (errFloat, h)
@@ -166,7 +157,8 @@ def hincrbyfloat (obs : Option Reply) (bits : UInt64) (h : HashT) (f : Bytes) : 
     | some (.bulk (some r)) =>
       if looksDecimal r then (bulk r, (hset h f r).1) else (rejectObs obs "HINCRBYFLOAT result is not a finite decimal", h)
     | some (.err e) =>
-      if flExp bits ≥ 2045 && !isWrongType e then (.err e, h) else (rejectObs obs "HINCRBYFLOAT must succeed", h)
+      let curHuge := match hget h f with | none => false | some b => hugeDecimal b
+      if (flExp bits ≥ 2045 || curHuge) && !isWrongType e then (.err e, h) else (rejectObs obs "HINCRBYFLOAT must succeed", h)
     | _ => (rejectObs obs "HINCRBYFLOAT answers a bulk string", h)
 
 def cmdHIncrByFloat : Cmd := fun env db args =>
